@@ -1,4 +1,506 @@
 package main
 
-func cmdCheck(args []string)    {}
-func cmdBaseline(args []string) {}
+import (
+	"bufio"
+	"encoding/json"
+	"flag"
+	"fmt"
+	"os"
+	"path/filepath"
+	"regexp"
+	"runtime"
+	"sort"
+	"strconv"
+	"strings"
+	"time"
+)
+
+type Baseline struct {
+	Note        string              `json:"note"`
+	Obligations map[string][]string `json:"obligations"` // property -> obligation names that discharge on the pinned tree
+}
+
+type KnownFinding struct {
+	Kind       string // known | fixed
+	Property   string
+	Obligation string
+	Rest       string
+}
+
+func verifRoot() string {
+	if d := os.Getenv("GVC_ROOT"); d != "" {
+		return d
+	}
+	exe, err := os.Executable()
+	if err == nil {
+		return filepath.Dir(filepath.Dir(exe))
+	}
+	return "/verif"
+}
+
+func loadBaseline(root string) *Baseline {
+	b := &Baseline{Obligations: map[string][]string{}}
+	data, err := os.ReadFile(filepath.Join(root, "baseline", "obligations.json"))
+	if err == nil {
+		_ = json.Unmarshal(data, b)
+	}
+	if b.Obligations == nil {
+		b.Obligations = map[string][]string{}
+	}
+	return b
+}
+
+func loadKnown(root string) []KnownFinding {
+	var out []KnownFinding
+	f, err := os.Open(filepath.Join(root, "known_findings.txt"))
+	if err != nil {
+		return nil
+	}
+	defer f.Close()
+	sc := bufio.NewScanner(f)
+	re := regexp.MustCompile(`^(known|fixed):\s+property=(\S+)\s+(.*)$`)
+	for sc.Scan() {
+		line := strings.TrimSpace(sc.Text())
+		m := re.FindStringSubmatch(line)
+		if m == nil {
+			continue
+		}
+		k := KnownFinding{Kind: m[1], Property: m[2], Rest: m[3]}
+		if mm := regexp.MustCompile(`obligation=(\S+)`).FindStringSubmatch(m[3]); mm != nil {
+			k.Obligation = mm[1]
+		}
+		out = append(out, k)
+	}
+	return out
+}
+
+func propOfObl(o *Obligation, prop string) bool {
+	return contains(o.Props, prop)
+}
+
+type checkResult struct {
+	prop        string
+	obls        []*Obligation
+	fcs         []*FnCtx
+	bindErrs    []string
+	unmatched   []string
+	lemmaObls   []*Obligation
+	wall        float64
+	loadSecs    float64
+	solveSecs   float64
+	notes       []string
+	trusted     map[string]bool
+	funcs       []string
+	engineError string
+}
+
+// runProperty generates and solves every obligation that serves property prop.
+func runProperty(e *Engine, prop string, cfg SolverCfg) *checkResult {
+	res := &checkResult{prop: prop, trusted: map[string]bool{}}
+	names := e.funcsForProp(prop)
+	res.funcs = names
+	fcs, errs := generateFor(e, names)
+	res.fcs = fcs
+	res.bindErrs = errs
+	for _, fc := range fcs {
+		for _, o := range fc.obls {
+			if propOfObl(o, prop) {
+				res.obls = append(res.obls, o)
+			}
+		}
+		res.unmatched = append(res.unmatched, fc.unmatchedAts()...)
+		for _, n := range fc.notes {
+			res.notes = append(res.notes, fc.name+": "+n)
+		}
+		for t := range fc.trusted {
+			res.trusted[t] = true
+		}
+	}
+	lobls, lerrs, ltrusted := e.lemmaObligations(prop)
+	res.obls = append(res.obls, lobls...)
+	res.bindErrs = append(res.bindErrs, lerrs...)
+	for _, t := range ltrusted {
+		res.trusted[t] = true
+	}
+	t1 := time.Now()
+	Solve(res.obls, cfg)
+	res.solveSecs = time.Since(t1).Seconds()
+	return res
+}
+
+func cmdCheck(args []string) {
+	fs := flag.NewFlagSet("check", flag.ExitOnError)
+	repo := fs.String("repo", "/repo", "repository")
+	prop := fs.String("prop", "", "property id")
+	tier := fs.String("tier", "quick", "quick|thorough")
+	fs.Parse(args)
+	if *prop == "" {
+		fmt.Fprintln(os.Stderr, "ENGINE-ERROR: -prop required")
+		os.Exit(2)
+	}
+	root := verifRoot()
+	seed := 0
+	if s := os.Getenv("VERIF_SEED"); s != "" {
+		seed, _ = strconv.Atoi(s)
+	}
+	t0 := time.Now()
+	e, err := LoadEngine(*repo, nil)
+	if err != nil {
+		// the repository does not load/type-check or the contract file is malformed: no verdict possible
+		fmt.Fprintln(os.Stderr, "ENGINE-ERROR load:", err)
+		writeEvidence(root, *prop, *tier, seed, nil, nil, nil, time.Since(t0).Seconds(), "engine error: "+err.Error())
+		os.Exit(2)
+	}
+	loadSecs := time.Since(t0).Seconds()
+	cfg := SolverCfg{Timeout: 10 * time.Second, Workers: runtime.NumCPU(), Seed: seed}
+	if *tier == "thorough" {
+		cfg.Timeout = 60 * time.Second
+		cfg.AllAgree = true
+	}
+	res := runProperty(e, *prop, cfg)
+	res.loadSecs = loadSecs
+	// retry failures of baseline obligations with more time and other seeds before calling them violations
+	base := loadBaseline(root)
+	inBase := map[string]bool{}
+	for _, n := range base.Obligations[*prop] {
+		inBase[n] = true
+	}
+	var retry []*Obligation
+	for _, o := range res.obls {
+		if o.Kind != "vacuity" && o.Result != "unsat" && o.Result != "sat" && inBase[o.Name] {
+			retry = append(retry, o)
+		}
+	}
+	if len(retry) > 0 {
+		for _, s := range []int{seed + 1, seed + 2} {
+			var again []*Obligation
+			for _, o := range retry {
+				if o.Result != "unsat" && o.Result != "sat" {
+					again = append(again, o)
+				}
+			}
+			if len(again) == 0 {
+				break
+			}
+			c2 := cfg
+			c2.Seed = s
+			c2.Timeout = 30 * time.Second
+			if *tier == "thorough" {
+				c2.Timeout = 90 * time.Second
+			}
+			c2.AllAgree = false
+			Solve(again, c2)
+		}
+	}
+	known := loadKnown(root)
+	exit := report(root, *prop, *tier, seed, res, base, known, time.Since(t0).Seconds(), e)
+	os.Exit(exit)
+}
+
+func sanitize(s string) string {
+	return regexp.MustCompile(`[^A-Za-z0-9_.-]+`).ReplaceAllString(s, "_")
+}
+
+func report(root, prop, tier string, seed int, res *checkResult, base *Baseline, known []KnownFinding, wall float64, e *Engine) int {
+	inBase := map[string]bool{}
+	for _, n := range base.Obligations[prop] {
+		inBase[n] = true
+	}
+	generated := map[string]bool{}
+	var violations []*Obligation
+	var undecided []*Obligation
+	var vacuous []*Obligation
+	var knownHits []string
+	nProof, nDischarged := 0, 0
+	for _, o := range res.obls {
+		generated[o.Name] = true
+		if o.Kind == "vacuity" {
+			if o.Result == "unsat" {
+				vacuous = append(vacuous, o)
+			}
+			continue
+		}
+		nProof++
+		if o.Result == "disagree" {
+			fmt.Fprintf(os.Stderr, "ENGINE-ERROR solvers disagree on %s: %s\n", o.Name, o.Output)
+			writeEvidence(root, prop, tier, seed, res, nil, nil, wall, "engine error: solver disagreement on "+o.Name)
+			return 2
+		}
+		if o.Result == "unsat" {
+			nDischarged++
+			continue
+		}
+		// failed
+		isKnown := false
+		for _, k := range known {
+			if k.Kind == "known" && k.Property == prop && k.Obligation == o.Name {
+				isKnown = true
+				line := fmt.Sprintf("KNOWN-FINDING: property=%s %s %s", prop, o.Name, k.Rest)
+				knownHits = append(knownHits, line)
+				fmt.Println(line)
+			}
+		}
+		if isKnown {
+			continue
+		}
+		if inBase[o.Name] {
+			violations = append(violations, o)
+		} else {
+			undecided = append(undecided, o)
+		}
+	}
+	// try to replay counterexamples of undecided obligations: a confirmed one is a violation whatever the baseline says
+	for _, o := range append(append([]*Obligation{}, violations...), undecided...) {
+		tryReplay(e, root, prop, o)
+	}
+	var stillUndecided []*Obligation
+	for _, o := range undecided {
+		if o.replayConfirmed() {
+			violations = append(violations, o)
+		} else {
+			stillUndecided = append(stillUndecided, o)
+		}
+	}
+	undecided = stillUndecided
+	missing := 0
+	for n := range inBase {
+		if !generated[n] {
+			missing++
+		}
+	}
+	for _, b := range res.bindErrs {
+		fmt.Printf("UNDECIDED binding: %s\n", b)
+	}
+	for _, u := range res.unmatched {
+		fmt.Printf("UNDECIDED anchor: %s\n", u)
+	}
+	for _, o := range undecided {
+		fmt.Printf("UNDECIDED obligation=%s result=%s (%s) — not in the baseline, no replayable counterexample\n", o.Name, o.Result, o.Text)
+	}
+	for _, o := range vacuous {
+		fmt.Printf("UNDECIDED vacuity=%s — assumptions contradict at this point; obligations after it carry no weight\n", o.Name)
+	}
+	if missing > 0 {
+		fmt.Printf("UNDECIDED missing=%d baseline obligations were not generated from the current source\n", missing)
+	}
+	os.MkdirAll(filepath.Join(root, "replay"), 0o755)
+	for _, o := range violations {
+		path := filepath.Join(root, "replay", fmt.Sprintf("%s-%s.json", prop, sanitize(o.Name)))
+		rf := map[string]interface{}{
+			"property": prop, "obligation": o.Name, "kind": o.Kind, "function": o.Fn, "position": o.Pos, "text": o.Text,
+			"solver": o.Solver, "result": o.Result, "solver_output": truncate(o.Output, 20000),
+			"in_baseline": inBase[o.Name], "goal": truncate(o.Goal, 4000),
+		}
+		suffix := " no-failing-input-found"
+		if o.Replay != nil {
+			rf["replay_test"] = o.Replay.Source
+			rf["replay_output"] = truncate(o.Replay.Output, 8000)
+			rf["replay_confirmed"] = o.Replay.Confirmed
+			rf["model_inputs"] = o.Replay.Inputs
+			if o.Replay.Confirmed {
+				suffix = ""
+			}
+		}
+		data, _ := json.MarshalIndent(rf, "", " ")
+		_ = os.WriteFile(path, data, 0o644)
+		fmt.Printf("VIOLATION property=%s replay=%s obligation=%s%s\n", prop, path, o.Name, suffix)
+	}
+	expl := ""
+	if len(undecided)+len(res.bindErrs)+len(vacuous)+missing > 0 {
+		expl = fmt.Sprintf("%d undecided obligations, %d binding errors, %d vacuous points, %d baseline obligations not generated", len(undecided), len(res.bindErrs), len(vacuous), missing)
+	}
+	writeEvidenceFull(root, prop, tier, seed, res, nProof, nDischarged, len(violations), knownHits, undecided, wall, expl)
+	fmt.Printf("property %s tier %s: %d obligations, %d discharged, %d violations, %d known, %d undecided; load %.1fs solve %.1fs wall %.1fs\n",
+		prop, tier, nProof, nDischarged, len(violations), len(knownHits), len(undecided), res.loadSecs, res.solveSecs, wall)
+	if len(violations) > 0 {
+		return 1
+	}
+	return 0
+}
+
+func truncate(s string, n int) string {
+	if len(s) > n {
+		return s[:n] + "…"
+	}
+	return s
+}
+
+func writeEvidence(root, prop, tier string, seed int, res *checkResult, a, b interface{}, wall float64, expl string) {
+	ev := map[string]interface{}{
+		"property_id": prop, "tier": tier, "seed": seed, "level": "other", "wall_s": wall,
+		"coverage": map[string]interface{}{"explanation": expl, "obligations": 0, "discharged": 0},
+	}
+	os.MkdirAll(filepath.Join(root, "evidence"), 0o755)
+	data, _ := json.MarshalIndent(ev, "", " ")
+	_ = os.WriteFile(filepath.Join(root, "evidence", prop+".json"), data, 0o644)
+}
+
+func writeEvidenceFull(root, prop, tier string, seed int, res *checkResult, nProof, nDischarged, nViol int, knownHits []string, undecided []*Obligation, wall float64, expl string) {
+	byKind := map[string]int{}
+	bySolver := map[string]int{}
+	var total, maxT float64
+	var maxName string
+	nvac, nvacSat := 0, 0
+	for _, o := range res.obls {
+		if o.Kind == "vacuity" {
+			nvac++
+			if o.Result == "sat" {
+				nvacSat++
+			}
+			continue
+		}
+		byKind[o.Kind]++
+		bySolver[o.Solver]++
+		total += o.Time
+		if o.Time > maxT {
+			maxT, maxName = o.Time, o.Name
+		}
+	}
+	// samples: a few obligations written out
+	var samples []interface{}
+	seenKind := map[string]bool{}
+	for _, o := range res.obls {
+		if o.Kind == "vacuity" || seenKind[o.Kind] || len(samples) >= 8 {
+			continue
+		}
+		seenKind[o.Kind] = true
+		samples = append(samples, map[string]interface{}{"obligation": o.Name, "kind": o.Kind, "at": o.Pos, "meaning": o.Text, "result": o.Result, "solver": o.Solver, "smt_goal": truncate(o.Goal, 600)})
+	}
+	var trusted []string
+	for t := range res.trusted {
+		trusted = append(trusted, t)
+	}
+	sort.Strings(trusted)
+	base := []string{
+		"gvc VC generator (SSA -> SMT translation, builtin semantics, contract parser)",
+		"golang.org/x/tools/go/ssa v0.29.0 represents the compiled source faithfully",
+		"SMT solvers z3 5.1.0 (z3-new), z3 4.8.12, cvc5 1.0",
+		"int is 64-bit; machine integers modelled as mathematical integers with exact wrap-around after every operation",
+		"callees with a contract do not retain references to their arguments unless the contract says so",
+	}
+	trustedAll := append(base, trusted...)
+	level := "proof"
+	if nProof == 0 || nDischarged != nProof || expl != "" {
+		level = "other"
+	}
+	var und []string
+	for _, o := range undecided {
+		und = append(und, o.Name)
+	}
+	sort.Strings(res.notes)
+	notes := res.notes
+	if len(notes) > 40 {
+		notes = append(notes[:40], fmt.Sprintf("… %d more", len(res.notes)-40))
+	}
+	cov := map[string]interface{}{
+		"obligations": nProof, "discharged": nDischarged,
+		"checker_cmd":       fmt.Sprintf("bin/gvc check -prop %s -tier %s", prop, tier),
+		"trusted_base":      trustedAll,
+		"functions_under_contract": res.funcs,
+		"obligations_by_kind":      byKind,
+		"discharged_by_solver":     bySolver,
+		"solver_time_total_s":      total,
+		"solver_time_max_s":        maxT,
+		"slowest_obligation":       maxName,
+		"vacuity_probes":           nvac,
+		"vacuity_probes_with_model": nvacSat,
+		"samples":                  samples,
+		"known_findings_matched":   knownHits,
+		"undecided":                und,
+		"binding_errors":           res.bindErrs,
+		"abstraction_notes":        notes,
+		"explanation":              "Contract-based deductive verification: every obligation is a VC generated from /repo's SSA and discharged by an SMT solver. " + expl,
+	}
+	ev := map[string]interface{}{
+		"property_id": prop, "tier": tier, "seed": seed, "level": level, "wall_s": wall, "violations": nViol,
+		"coverage": cov, "assumptions": trustedAll,
+	}
+	os.MkdirAll(filepath.Join(root, "evidence"), 0o755)
+	data, _ := json.MarshalIndent(ev, "", " ")
+	_ = os.WriteFile(filepath.Join(root, "evidence", prop+".json"), data, 0o644)
+}
+
+// ---------------------------------------------------------------------------
+// Baseline generation
+
+func cmdBaseline(args []string) {
+	fs := flag.NewFlagSet("baseline", flag.ExitOnError)
+	repo := fs.String("repo", "/repo", "repository")
+	props := fs.String("props", "", "comma separated property ids (default: all mentioned in contracts)")
+	seeds := fs.Int("seeds", 2, "number of seeds each obligation must survive")
+	fs.Parse(args)
+	root := verifRoot()
+	e, err := LoadEngine(*repo, nil)
+	if err != nil {
+		fmt.Fprintln(os.Stderr, "ENGINE-ERROR load:", err)
+		os.Exit(2)
+	}
+	var plist []string
+	if *props != "" {
+		plist = strings.Split(*props, ",")
+	} else {
+		plist = e.allProps()
+	}
+	base := loadBaseline(root)
+	base.Note = "names of the obligations that discharge on the pinned tree; regenerate deliberately with `bin/gvc baseline`"
+	for _, p := range plist {
+		good := map[string]int{}
+		total := 0
+		for s := 0; s < *seeds; s++ {
+			res := runProperty(e, p, SolverCfg{Timeout: 10 * time.Second, Workers: runtime.NumCPU(), Seed: s})
+			total = 0
+			for _, o := range res.obls {
+				if o.Kind == "vacuity" {
+					continue
+				}
+				total++
+				if o.Result == "unsat" && o.Time < 8 {
+					good[o.Name]++
+				}
+			}
+			// fresh engine state is not needed: contexts are rebuilt per run
+		}
+		var names []string
+		for n, c := range good {
+			if c == *seeds {
+				names = append(names, n)
+			}
+		}
+		sort.Strings(names)
+		base.Obligations[p] = names
+		fmt.Printf("%s: %d of %d obligations enter the baseline\n", p, len(names), total)
+	}
+	os.MkdirAll(filepath.Join(root, "baseline"), 0o755)
+	data, _ := json.MarshalIndent(base, "", " ")
+	_ = os.WriteFile(filepath.Join(root, "baseline", "obligations.json"), data, 0o644)
+}
+
+func (e *Engine) allProps() []string {
+	set := map[string]bool{}
+	for _, c := range e.cs.Funcs {
+		for _, p := range c.Props {
+			set[p] = true
+		}
+		for _, cl := range c.Requires {
+			for _, p := range cl.Props {
+				set[p] = true
+			}
+		}
+		for _, cl := range c.Ensures {
+			for _, p := range cl.Props {
+				set[p] = true
+			}
+		}
+		for _, a := range c.Ats {
+			for _, p := range a.Cl.Props {
+				set[p] = true
+			}
+		}
+	}
+	for _, l := range e.cs.Lemmas {
+		for _, p := range l.Props {
+			set[p] = true
+		}
+	}
+	return sortedKeys(set)
+}
